@@ -212,6 +212,8 @@ static bool exactReal(double x)
 
 static Val mkReal(double x, bool inex)
 {
+    // a negative zero is kept out of the identity oracles
+    if (x == 0.0 && std::signbit(x)) return Val::r(0.0, true);
     return Val::r(x, inex || !exactReal(x));
 }
 
